@@ -666,3 +666,9 @@ M('seed7-C13-seek-end-listed-size', ['C13', 'C14'], RL, "                       
 
 M('size-D44-shape-zero-accepted-util', ['C17'], UT, "                        if not xform.width or not xform.height:  # OpenCV refuses an empty size for every image\n                            raise ValueError(f'invalid size {args!r}, width and height must be at least 1')\n", "", ['C17.R6'])
 M('size-D44-shape-zero-accepted-video', ['C17'], VI, "    if not int(m.group(1)) or not int(m.group(3)):  # OpenCV refuses an empty size for every image\n        raise ValueError(f'invalid size {s!r}, width and height must be at least 1')\n", "", ['C17.R6'])
+
+M('deadline-relative-stored-as-absolute', ['C08'], F, "            self.exit_after_t = time.time() + exit_after\n", "            self.exit_after_t = exit_after\n", ['C08.R8'])
+M('deadline-at-form-keeps-the-at', ['C08'], F, "parse_date_and_or_time(exit_after[1:], LOG_UTC)).timestamp()", "parse_date_and_or_time(exit_after, LOG_UTC)).timestamp()", ['C08.R8'])
+M('interval-weights-minutes-hours-swapped', ['C08'], UTL, "zip([24*60*60, 60*60, 60, 1]", "zip([24*60*60, 60, 60*60, 1]", ['C08.R8'])
+M('interval-left-aligned', ['C08'], UTL, "parts = ('0:0:0:' + text).split(':')[-4:]", "parts = (text + ':0:0:0').split(':')[:4]", ['C08.R8'])
+M('deadline-compared-inverted', ['C08'], F, "time.time() >= exit_after_t:", "time.time() <= exit_after_t:", ['C08.R8', 'C08.R4'])
